@@ -33,3 +33,6 @@ ASSUMPTIONS = [
 
 # dimensions added in seeded rounds 6 and 7
 PROBES = list(PROBES) + ["output-names-held-longer-files:junk", "output-names-held-longer-files:rerun", "integer-arguments-as-numpy-scalars"]
+
+# dimensions added in seeded round 10
+RULE = RULE + " Round 10: W4 - one raw data write transfers at most 1-1000 bytes in 5/8 of the runs (never fires on the pinned tree)."
